@@ -1162,6 +1162,10 @@ theorem growth_shape (C : Crypto) (hC : HashWF C) (bs : Array Bytes) (m n : Nat)
   have hcommit : c.tree.commit cs = .ok tr := by
     rw [← htr]
     simp only [Tree.commit, hcmt, h7, Bool.not_true, Bool.false_eq_true, ite_false, Bool.true_and, decide_eq_true_eq, hnl, ite_true, insertAll]
+  have henc : Core.encodable cs = true := encodable_of_ref C hC bs cs (fun x hx => by
+    simp only [Changeset.nodes, List.mem_reverse] at hx
+    obtain ⟨dd, o, e, _⟩ := h2.nodesRef x hx
+    exact ⟨dd, o, e⟩)
   have hds : Core.dataStep c d (honestGrowth C bs c.tree.fork m n us sig) cs = .ok ([], none) := by
     simp [Core.dataStep, honestGrowth]
   have hp : (honestGrowth C bs c.tree.fork m n us sig).fork = c.tree.fork := rfl
@@ -1171,7 +1175,7 @@ theorem growth_shape (C : Crypto) (hC : HashWF C) (bs : Array Bytes) (m n : Nat)
           journal := (Oplog.appendEntry c.oplog (Core.entryOf cs none c.header).1).2 ++ c1.maybeFlush.2,
           events := Core.appliedEvents (honestGrowth C bs c.tree.fork m n us sig) none } := by
     unfold Core.verifyAndApply
-    simp only [hp, ne_eq, not_true_eq_false, ite_false, hvv, hcmt, Bool.not_true, Bool.false_eq_true, hds]
+    simp only [hp, ne_eq, not_true_eq_false, ite_false, hvv, hcmt, Bool.not_true, Bool.false_eq_true, hds, henc, ite_true]
     unfold Core.applyVerified
     simp only [hcommit, Core.finishApply, List.nil_append, ← hc1]
   refine ⟨cs, h2, h4, h5, h7, ha, h11, ?_, ?_⟩
@@ -1213,6 +1217,10 @@ theorem growCore_repr (C : Crypto) (hC : HashWF C) (bs : Array Bytes) (m n : Nat
   have hcommit : c.tree.commit cs = .ok tr := by
     rw [← htr]
     simp only [Tree.commit, hcmt, h7, Bool.not_true, Bool.false_eq_true, ite_false, Bool.true_and, decide_eq_true_eq, hnl, ite_true, insertAll]
+  have henc : Core.encodable cs = true := encodable_of_ref C hC bs cs (fun x hx => by
+    simp only [Changeset.nodes, List.mem_reverse] at hx
+    obtain ⟨dd, o, e, _⟩ := h2.nodesRef x hx
+    exact ⟨dd, o, e⟩)
   have hds : Core.dataStep c d (honestGrowth C bs c.tree.fork m n us sig) cs = .ok ([], none) := by
     simp [Core.dataStep, honestGrowth]
   have hp : (honestGrowth C bs c.tree.fork m n us sig).fork = c.tree.fork := rfl
@@ -1222,7 +1230,7 @@ theorem growCore_repr (C : Crypto) (hC : HashWF C) (bs : Array Bytes) (m n : Nat
           journal := (Oplog.appendEntry c.oplog (Core.entryOf cs none c.header).1).2 ++ c1.maybeFlush.2,
           events := Core.appliedEvents (honestGrowth C bs c.tree.fork m n us sig) none } := by
     unfold Core.verifyAndApply
-    simp only [hp, ne_eq, not_true_eq_false, ite_false, hvv, hcmt, Bool.not_true, Bool.false_eq_true, hds]
+    simp only [hp, ne_eq, not_true_eq_false, ite_false, hvv, hcmt, Bool.not_true, Bool.false_eq_true, hds, henc, ite_true]
     unfold Core.applyVerified
     simp only [hcommit, Core.finishApply, List.nil_append, ← hc1]
   have hj1 : ∀ op ∈ (Oplog.appendEntry c.oplog (Core.entryOf cs none c.header).1).2, op.store = .oplog := Journal.appendEntry_store _ _
@@ -1304,6 +1312,10 @@ theorem apply_growth (C : Crypto) (hC : HashWF C) (bs : Array Bytes) (m n : Nat)
   have hcommit : c.tree.commit cs = .ok tr := by
     rw [← htr]
     simp only [Tree.commit, hcmt, h7, Bool.not_true, Bool.false_eq_true, ite_false, Bool.true_and, decide_eq_true_eq, hnl, ite_true, insertAll]
+  have henc : Core.encodable cs = true := encodable_of_ref C hC bs cs (fun x hx => by
+    simp only [Changeset.nodes, List.mem_reverse] at hx
+    obtain ⟨dd, o, e, _⟩ := h2.nodesRef x hx
+    exact ⟨dd, o, e⟩)
   have hds : Core.dataStep c d (honestGrowth C bs c.tree.fork m n us sig) cs = .ok ([], none) := by
     simp [Core.dataStep, honestGrowth]
   have hp : (honestGrowth C bs c.tree.fork m n us sig).fork = c.tree.fork := rfl
@@ -1313,7 +1325,7 @@ theorem apply_growth (C : Crypto) (hC : HashWF C) (bs : Array Bytes) (m n : Nat)
           journal := (Oplog.appendEntry c.oplog (Core.entryOf cs none c.header).1).2 ++ c1.maybeFlush.2,
           events := Core.appliedEvents (honestGrowth C bs c.tree.fork m n us sig) none } := by
     unfold Core.verifyAndApply
-    simp only [hp, ne_eq, not_true_eq_false, ite_false, hvv, hcmt, Bool.not_true, Bool.false_eq_true, hds]
+    simp only [hp, ne_eq, not_true_eq_false, ite_false, hvv, hcmt, Bool.not_true, Bool.false_eq_true, hds, henc, ite_true]
     unfold Core.applyVerified
     simp only [hcommit, Core.finishApply, List.nil_append, ← hc1]
   have hj1 : ∀ op ∈ (Oplog.appendEntry c.oplog (Core.entryOf cs none c.header).1).2, op.store = .oplog := Journal.appendEntry_store _ _
